@@ -136,9 +136,9 @@ TinyCases == IF ~TinyBig THEN
   \cup { << "tverify", r, s, m, d >> : r \in 0..(NN-1), s \in 0..(NN-1), m \in 0..(NN-1), d \in 1..(NN-1) }
   \cup { << "trecover", r, s, m, rid >> : r \in 0..(NN-1), s \in 0..(NN-1), m \in 0..(NN-1), rid \in {0, 1} }
  ELSE
-       { << "tsign", FromNat(d), FromNat(m), k >> : d \in Sample(17) \cup {NN, NN+1}, m \in Sample(23) \cup {NN, NN+2}, k \in { FromNat(x) : x \in 0..NN } }
-  \cup { << "tverify", r, s, m, d >> : r \in 0..(NN-1), s \in Sample(7), m \in Sample(67), d \in Sample(67) \ {0} }
-  \cup { << "trecover", r, s, m, rid >> : r \in 0..(NN-1), s \in Sample(67), m \in Sample(67), rid \in {0, 1} }
+       { << "tsign", FromNat(d), FromNat(m), k >> : d \in Sample(37) \cup {NN, NN+1}, m \in Sample(67) \cup {NN, NN+2}, k \in { FromNat(x) : x \in 0..NN } }
+  \cup { << "tverify", r, s, m, d >> : r \in 0..(NN-1), s \in Sample(23), m \in {0, 1, NN - 1}, d \in {1, 77, NN - 1} }
+  \cup { << "trecover", r, s, m, rid >> : r \in 0..(NN-1), s \in {1, 2, NN - 1}, m \in {0, 5}, rid \in {0, 1} }
 ExpandTiny(c) ==
   CASE c[1] = "tsign" -> [ e |-> "EcdsaSign", in |-> [ key |-> NBytes(c[2]), msg |-> NBytes(c[3]), nf |-> 2, rec |-> 0,
                                                       nonces |-> << NBytes(Zero), NBytes(c[4]) >> ] ]
